@@ -3,8 +3,8 @@ package rules
 import (
 	"encoding/json"
 	"fmt"
-	"os"
 	"go/types"
+	"os"
 	"strings"
 
 	"golang.org/x/tools/go/ssa"
@@ -16,7 +16,7 @@ func init() { register("C01", c01) }
 
 type errClasses struct {
 	user, internal, interpErr, rtErr *types.Interface
-	external, externalNon          types.Type
+	external, externalNon            types.Type
 }
 
 func loadErrClasses(r *core.Run) *errClasses {
@@ -92,29 +92,29 @@ func (ec *errClasses) classify(t types.Type) string {
 // recoverTable is the reviewed classification of every recover() site of the pinned tree:
 // key = enclosing declared function, value = expected arm summary and why it is acceptable.
 var recoverTable = map[string][2]string{
-	"bbq/vm.(VM).RecoverErrors":           {"errors.UserError:absorb; errors.ExternalError:absorb; default:absorb", "boundary: hands every recovered value to the error handler"},
-	"bbq/vm.convertAndBoxArguments":       {"*interpreter.ValueTransferTypeError:repanic; default:repanic", "bookkeeping: always re-panics"},
-	"encoding/ccf.(Decoder).Decode":       {"runtime.Error:repanic; errors.InternalError:repanic; error:absorb; default:repanic", "codec boundary: converts user errors to a returned error, re-panics crashers"},
-	"encoding/ccf.(Encoder).Encode":       {"runtime.Error:repanic; errors.InternalError:repanic; error:absorb; default:repanic", "codec boundary"},
-	"encoding/json.(Decoder).Decode":      {"error:absorb; default:repanic", "codec boundary: every error panic becomes a returned decoding error"},
-	"encoding/json.(Encoder).Encode":      {"runtime.Error:repanic; error:absorb; default:repanic", "codec boundary"},
-	"errors.WrapPanic":                    {"runtime.Error:repanic; errors.InternalError:repanic; error:repanic; default:repanic", "bookkeeping: wraps and always re-panics"},
-	"interpreter.(Interpreter).RecoverErrors": {"default:absorb", "boundary: hands every recovered value to the error handler"},
+	"bbq/vm.(VM).RecoverErrors":                                    {"errors.UserError:absorb; errors.ExternalError:absorb; default:absorb", "boundary: hands every recovered value to the error handler"},
+	"bbq/vm.convertAndBoxArguments":                                {"*interpreter.ValueTransferTypeError:repanic; default:repanic", "bookkeeping: always re-panics"},
+	"encoding/ccf.(Decoder).Decode":                                {"runtime.Error:repanic; errors.InternalError:repanic; error:absorb; default:repanic", "codec boundary: converts user errors to a returned error, re-panics crashers"},
+	"encoding/ccf.(Encoder).Encode":                                {"runtime.Error:repanic; errors.InternalError:repanic; error:absorb; default:repanic", "codec boundary"},
+	"encoding/json.(Decoder).Decode":                               {"error:absorb; default:repanic", "codec boundary: every error panic becomes a returned decoding error"},
+	"encoding/json.(Encoder).Encode":                               {"runtime.Error:repanic; error:absorb; default:repanic", "codec boundary"},
+	"errors.WrapPanic":                                             {"runtime.Error:repanic; errors.InternalError:repanic; error:repanic; default:repanic", "bookkeeping: wraps and always re-panics"},
+	"interpreter.(Interpreter).RecoverErrors":                      {"default:absorb", "boundary: hands every recovered value to the error handler"},
 	"interpreter.(Interpreter).invokeInterpretedFunctionActivated": {"default:repanic", "bookkeeping: always re-panics"},
-	"interpreter.transferArguments":       {"*interpreter.ValueTransferTypeError:repanic; default:repanic", "bookkeeping: always re-panics"},
-	"interpreter.checkValue":              {"errors.UserError:absorb; errors.ExternalError:absorb; golang.org/x/xerrors.Wrapper:absorb; default:repanic", "filter for storage iteration: user errors mean a broken stored value (skipped); ExternalError absorption is C28 known finding F5"},
-	"old_parser.ParseTokenStream":         {"old_parser.ParseError:absorb; errors.InternalError:repanic; errors.UserError:repanic; error:repanic; default:repanic", "old parser boundary (contract-update validation only)"},
-	"old_parser.defineLessThanOrTypeArgumentsExpression": {"errors.MemoryMeteringError:repanic; default:absorb", "parser backtracking: a failed speculative parse is replayed"},
-	"old_parser/lexer.(lexer).run":        {"errors.MemoryMeteringError:repanic; errors.InternalError:repanic; error:absorb; default:absorb", "lexer boundary: errors become error tokens"},
-	"parser.ParseTokenStream":             {"parser.ParseError:absorb; errors.UserError:absorb; errors.InternalError:absorb; error:absorb; default:absorb", "parser boundary: every panic becomes a returned error"},
-	"parser.defineLessThanOrTypeArgumentsExpression": {"errors.MemoryMeteringError:repanic; default:absorb", "parser backtracking: a failed speculative parse is replayed"},
-	"parser/lexer.(lexer).run":            {"error:absorb; default:absorb", "lexer boundary: errors become error tokens"},
-	"pretty.(ErrorPrettyPrinter).PrettyPrintError": {"runtime.Error:repanic; error:absorb; default:absorb", "printer boundary (not on an execution path)"},
-	"runtime.(REPL).Accept":               {"runtime.Error:repanic; error:absorb; default:absorb", "REPL boundary (not an embedding entry point)"},
-	"runtime.Recover":                     {"default:absorb", "THE runtime boundary: GetWrappedError classifies, unknown values become UnexpectedError"},
-	"runtime.UserPanicToError":            {"error:absorb; default:repanic", "filter: returns user errors, re-panics internal/external, wraps the rest as UnexpectedError"},
-	"sema.(Checker).Check":                {"sema.stopChecking:absorb; default:absorb", "checker boundary: every panic becomes a returned error"},
-	"stdlib.nativeAccountContractsTryUpdateFunction": {"errors.UserError:absorb; errors.ExternalError:absorb; golang.org/x/xerrors.Wrapper:absorb; default:repanic", "documented tryUpdate exception: failures inside the update become an unsuccessful deployment result"},
+	"interpreter.transferArguments":                                {"*interpreter.ValueTransferTypeError:repanic; default:repanic", "bookkeeping: always re-panics"},
+	"interpreter.checkValue":                                       {"errors.UserError:absorb; errors.ExternalError:absorb; golang.org/x/xerrors.Wrapper:absorb; default:repanic", "filter for storage iteration: user errors mean a broken stored value (skipped); ExternalError absorption is C28 known finding F5"},
+	"old_parser.ParseTokenStream":                                  {"old_parser.ParseError:absorb; errors.InternalError:repanic; errors.UserError:repanic; error:repanic; default:repanic", "old parser boundary (contract-update validation only)"},
+	"old_parser.defineLessThanOrTypeArgumentsExpression":           {"errors.MemoryMeteringError:repanic; default:absorb", "parser backtracking: a failed speculative parse is replayed"},
+	"old_parser/lexer.(lexer).run":                                 {"errors.MemoryMeteringError:repanic; errors.InternalError:repanic; error:absorb; default:absorb", "lexer boundary: errors become error tokens"},
+	"parser.ParseTokenStream":                                      {"parser.ParseError:absorb; errors.UserError:absorb; errors.InternalError:absorb; error:absorb; default:absorb", "parser boundary: every panic becomes a returned error"},
+	"parser.defineLessThanOrTypeArgumentsExpression":               {"errors.MemoryMeteringError:repanic; default:absorb", "parser backtracking: a failed speculative parse is replayed"},
+	"parser/lexer.(lexer).run":                                     {"error:absorb; default:absorb", "lexer boundary: errors become error tokens"},
+	"pretty.(ErrorPrettyPrinter).PrettyPrintError":                 {"runtime.Error:repanic; error:absorb; default:absorb", "printer boundary (not on an execution path)"},
+	"runtime.(REPL).Accept":                                        {"runtime.Error:repanic; error:absorb; default:absorb", "REPL boundary (not an embedding entry point)"},
+	"runtime.Recover":                                              {"default:absorb", "THE runtime boundary: GetWrappedError classifies, unknown values become UnexpectedError"},
+	"runtime.UserPanicToError":                                     {"error:absorb; default:repanic", "filter: returns user errors, re-panics internal/external, wraps the rest as UnexpectedError"},
+	"sema.(Checker).Check":                                         {"sema.stopChecking:absorb; default:absorb", "checker boundary: every panic becomes a returned error"},
+	"stdlib.nativeAccountContractsTryUpdateFunction":               {"errors.UserError:absorb; errors.ExternalError:absorb; golang.org/x/xerrors.Wrapper:absorb; default:repanic", "documented tryUpdate exception: failures inside the update become an unsuccessful deployment result"},
 }
 
 // latentSaturating are the recover()-based delegating wrappers of (type, op) pairs the checker does not declare:
@@ -383,11 +383,22 @@ var errorIface = types.Universe.Lookup("error").Type().Underlying().(*types.Inte
 // sites reviewed on the pinned tree (tables/c01_error_baseline.json: "caller -> callee" -> count). A failure that is
 // silently ignored lets execution continue on inconsistent state and typically ends in a Go run-time panic.
 func c01ErrorDiscipline(r *core.Run) {
+	errDiscipline(r, "R4.errdrop", "module-wide scan", nil, 1000)
+}
+
+// errDiscipline: ERR engine over a set of functions (nil = whole module): every call of an error-returning module/atree/fixed-point
+// function whose error is dropped, overwritten before being tested, or swallowed on its non-nil edge must be one of the sites
+// recorded for the pinned tree (tables/c01_error_baseline.json, keyed caller -> callee). Properties share the rule restricted
+// to the functions that implement them, so that a swallowed failure in those files is reported under the property it breaks.
+func errDiscipline(r *core.Run, rule, what string, inScope func(fn *ssa.Function) bool, floor int) {
 	w := r.W
 	got := map[string]int{}
 	total := 0
 	for _, fn := range w.SrcFuncs() {
 		if fn.Parent() != nil || fn.Pkg == nil || !w.InScope(fn.Pkg.Pkg.Path()) {
+			continue
+		}
+		if inScope != nil && !inScope(fn) {
 			continue
 		}
 		for _, c := range core.Calls(fn, true) {
@@ -413,7 +424,9 @@ func c01ErrorDiscipline(r *core.Run) {
 		}
 	}
 	if genMode() {
-		genJSON(r, "c01_error_baseline", got)
+		if inScope == nil {
+			genJSON(r, "c01_error_baseline", got)
+		}
 		return
 	}
 	var base map[string]int
@@ -422,11 +435,11 @@ func c01ErrorDiscipline(r *core.Run) {
 	}
 	for _, k := range sortedKeys(got) {
 		if got[k] <= base[k] {
-			r.OK("R4.errdrop", k, 0, "baseline site(s) of the pinned tree where the error is not propagated ("+itoa(got[k])+"; recorded, not individually justified)")
+			r.OK(rule, k, 0, "baseline site(s) of the pinned tree where the error is not propagated ("+itoa(got[k])+"; recorded, not individually justified)")
 		} else {
-			r.Bad("R4.errdrop", k, 0, "the error result of this call is now dropped, overwritten before being tested, or swallowed on its non-nil edge ("+itoa(got[k])+" site(s), "+itoa(base[k])+" in the pinned baseline): a failure is silently ignored")
+			r.Bad(rule, k, 0, "the error result of this call is now dropped, overwritten before being tested, or swallowed on its non-nil edge ("+itoa(got[k])+" site(s), "+itoa(base[k])+" in the pinned baseline): a failure is silently ignored")
 		}
 	}
-	r.OK("R4.errdrop", "module-wide scan", 0, itoa(total)+" error-returning calls of module/atree/fixed-point functions scanned")
-	r.Floor("R4.errdrop", 1)
+	r.Check(total >= floor, rule, what, 0, itoa(total)+" error-returning calls of module/atree/fixed-point functions scanned", "only "+itoa(total)+" error-returning calls scanned, expected at least "+itoa(floor)+": the scanned functions moved")
+	r.Floor(rule, 1)
 }
